@@ -49,10 +49,10 @@ def consts(ctx, **over):
     return c
 
 
-def harness_cfg(c, handshake=True, bystander=False):
+def harness_cfg(c, handshake=True, bystander=False, processops=False):
     return {"NT": max(c["Tags"]), "NF": max(c["Fids"]), "HasFlushOp": c["HasFlushOp"],
             "InitFids": sorted(c["InitFids"]), "Maxpend": c["Maxpend"], "Dotu": True, "Handshake": handshake,
-            "Bystander": bystander, "FixClose": bool(c.get("FixClose"))}
+            "Bystander": bystander, "FixClose": bool(c.get("FixClose")), "ProcessOps": processops}
 
 
 def normalise_ext(src, dst):
@@ -197,12 +197,12 @@ def replay(ctx, paths, c, tag, engine="TestReplay", extra_env=None, id_base=0):
     return rep, tpath, epath, bpath
 
 
-def random_run(ctx, c, rc, tag, id_base):
+def random_run(ctx, c, rc, tag, id_base, processops=False):
     """Seeded random sessions/schedules on the real server.  Returns (report, trace, ext, behaviours)."""
     tpath = ctx.path("trace_%s.ndjson" % tag)
     epath = ctx.path("ext_%s.ndjson" % tag)
     bpath = ctx.path("beh_%s.ndjson" % tag)
-    env = {"VERIF_CFG": json.dumps(harness_cfg(c)), "VERIF_RAND": json.dumps(rc), "VERIF_TRACE_OUT": tpath,
+    env = {"VERIF_CFG": json.dumps(harness_cfg(c, processops=processops)), "VERIF_RAND": json.dumps(rc), "VERIF_TRACE_OUT": tpath,
            "VERIF_EXT_OUT": epath, "VERIF_BEH_OUT": bpath, "VERIF_ID_BASE": str(id_base)}
     rep, crashes = ctx.go_engine_resilient("srvh", "TestRandom", env=env, ext_out=epath, timeout=1500, name="TestRandom:%s" % tag)
     return rep, tpath, epath, bpath
@@ -306,3 +306,57 @@ def replay_file(ctx, props):
     if keep is not None:
         open(ev, "w").write(keep)
     return code
+
+
+def binding_selftest(ctx, trace_path, ext_path, c):
+    """Demonstrates that the binding has teeth (DESIGN 5.7): a recorded trace with ONE field corrupted must be rejected by
+    Srv9PTrace, and an external history with ONE reply duplicated must produce a C03 verdict.  Returns a dict for the
+    evidence; a self-test that does not fire makes the check inconclusive (the machinery would be blind)."""
+    out = {}
+    # 1. corrupt one status bit of one post-state in the first case
+    lines = []
+    with open(trace_path) as f:
+        for line in f:
+            lines.append(line)
+            if len(lines) >= 400:
+                break
+    # cut at a case boundary
+    last_reset = max(i for i, l in enumerate(lines) if '"Reset"' in l)
+    if last_reset > 0:
+        lines = lines[:last_reset]
+    done = False
+    for i, l in enumerate(lines):
+        e = json.loads(l)
+        rq = (e.get("post") or {}).get("rq")
+        if e.get("act") not in (None, "Reset") and rq:
+            rq[0][2] = not rq[0][2]          # the responded bit of request 1
+            lines[i] = json.dumps(e) + "\n"
+            done = True
+            break
+    cp = ctx.path("selftest_trace.ndjson")
+    open(cp, "w").writelines(lines)
+    rj, n = run_trace_validation(ctx, cp, c, name="selftest:corrupted-trace")
+    out["corrupted_trace_rejected"] = bool(done and rj)
+    if not out["corrupted_trace_rejected"]:
+        ctx.inconclusive.append("binding self-test: a trace with a corrupted status bit was not rejected by Srv9PTrace")
+    # 2. duplicate the first R event of the external history
+    elines = []
+    with open(ext_path) as f:
+        for line in f:
+            elines.append(line)
+            if len(elines) >= 300:
+                break
+    last_reset = max(i for i, l in enumerate(elines) if '"reset"' in l)
+    if last_reset > 0:
+        elines = elines[:last_reset]
+    for i, l in enumerate(elines):
+        if '"ev":"R"' in l.replace(" ", ""):
+            elines.insert(i + 1, l)
+            break
+    ep = ctx.path("selftest_ext.ndjson")
+    open(ep, "w").writelines(elines)
+    vd, _ = run_monitor(ctx, ep, name="selftest:duplicated-reply")
+    out["duplicated_reply_flagged"] = any(v[1] == "C03" and v[2] in ("second-reply", "reply-without-request") for v in vd)
+    if not out["duplicated_reply_flagged"]:
+        ctx.inconclusive.append("binding self-test: a duplicated reply in the external history was not flagged by Mon9P")
+    return out
